@@ -28,7 +28,8 @@ PROPS = {
     'C12': dict(engine='E3', level='exploration', quick_runs=6000, thorough_s=600),
     'C13': dict(engine='E3', level='exploration', quick_runs=5000, thorough_s=720),
     'C14': dict(engine='E3', level='exploration', quick_runs=5000, thorough_s=720),
-    'C17': dict(engine='E4', level='exploration', quick_runs=150000, thorough_s=300),
+    'C17': dict(engine='E4', level='exploration', quick_runs=150000, thorough_s=300,
+                extra=[('E2', 2500, 0.4)]),
     'C19': dict(engine='E5', level='exploration', quick_runs=300000, thorough_s=300),
     'C20': dict(engine='E6', level='fault_enumeration', quick_runs=100000, thorough_s=300),
 }
